@@ -414,6 +414,35 @@ def execute(plan):
                       sorted(set(want) - set(got))))
                 return
 
+    if plan['model_seed'] % 3 == 0 and assoc_classes and ends():
+        # an association that came in through add_cimobjects() (which does
+        # not validate references) and whose second end lies in a namespace
+        # that does not exist: a dangling end from the start
+        ac = assoc_classes[0]
+        rp = ref_props(ac['name'])
+        es0 = [k for k in ends() if RM.is_sub(k[1], rp[0]['ref'])]
+        es1 = [k for k in ends() if RM.is_sub(k[1], rp[1]['ref'])]
+        if es0 and es1 and all(d.get('key') for d in rp[:2]) and \
+                len(rp) == 2:
+            p0 = copy.deepcopy(RM.inst[es0[0]]['path'])
+            p1 = copy.deepcopy(RM.inst[es1[0]]['path'])
+            p1.namespace = 'no/such'
+            inst = CIMInstance(ac['name'], properties=[
+                CIMProperty(rp[0]['name'], p0, type='reference',
+                            reference_class=rp[0]['ref']),
+                CIMProperty(rp[1]['name'], p1, type='reference',
+                            reference_class=rp[1]['ref'])])
+            ns0 = RM.inst[es0[0]]['ns']
+            inst.path = pywbem.CIMInstanceName(
+                ac['name'], {rp[0]['name']: p0, rp[1]['name']: p1},
+                namespace=ns0)
+            if RM.make_key(ns0, inst) not in RM.inst:
+                try:
+                    conn.add_cimobjects(copy.deepcopy(inst), namespace=ns0)
+                    RM.store(ns0, inst)
+                    M.bump('association_into_missing_namespace')
+                except Exception as e:  # pylint: disable=broad-except
+                    viol('add-cimobjects-failed/' + type(e).__name__, repr(e))
     queries(-1)
     orphan = [False]
     for i, st in enumerate(plan['steps']):
